@@ -234,9 +234,18 @@ int URI_FUNC(ComposeQueryEngine)(URI_CHAR * dest,
 		valueRequiredChars = worstCase * (int)valueLen;
 
 		if (dest == NULL) {
-			(*charsRequired) += ampersandLen + keyRequiredChars + ((value == NULL)
-						? 0
-						: 1 + valueRequiredChars);
+			/* Add up with overflow detection */
+			int itemRequiredChars = ampersandLen + keyRequiredChars;  /* < INT_MAX, see check above */
+			if (value != NULL) {
+				if (valueRequiredChars > INT_MAX - 1 - itemRequiredChars) {
+					return URI_ERROR_OUTPUT_TOO_LARGE;
+				}
+				itemRequiredChars += 1 + valueRequiredChars;
+			}
+			if (itemRequiredChars > INT_MAX - (*charsRequired)) {
+				return URI_ERROR_OUTPUT_TOO_LARGE;
+			}
+			(*charsRequired) += itemRequiredChars;
 
 			if (firstItem == URI_TRUE) {
 				ampersandLen = 1;
